@@ -27,7 +27,8 @@ QUOTE = {
 NW_TOKENS = [t for t in TOKENS if "</nowiki" not in t] + ["{{t|x}}", "&"]
 NW_TOKENS.remove("&")
 NW_CORE = [t for t in CORE if "</nowiki" not in t] + ["{{t|x}}"]
-EMBED = ["top", "arg", "link", "item", "cell", "pagestart", "linestart", "cell_own_line", "after_link", "after_bold"]
+EMBED = ["top", "arg", "link", "item", "cell", "pagestart", "linestart", "cell_own_line", "after_link", "after_bold",
+         "top:upper", "arg:upper", "pagestart:mixed", "item:blank", "link:mixed"]
 CM_TOKENS = [t for t in TOKENS if t not in ("-->", "<!--", "<nowiki>")]
 # (a comment that contains a nowiki start tag still begins outside nowiki: the comment wins, as in MediaWiki)
 CM_INNER = [t for t in CORE if t not in ("-->",)] + ["{{t|x}}"] + (["<nowiki>"] if "<nowiki>" not in CORE else [])
@@ -48,8 +49,15 @@ def make_ctx():
     return ctx
 
 
+# tag spellings (tag names are case-insensitive; blanks are allowed before the closing angle bracket)
+SPELLINGS = {"": ("<nowiki>", "</nowiki>"), "upper": ("<NOWIKI>", "</NOWIKI>"), "mixed": ("<NoWiki>", "</nowiki>"), "blank": ("<nowiki >", "</nowiki >")}
+
+
 def embed(c, e):
-    nw = "<nowiki>" + c + "</nowiki>"
+    sp = ""
+    if ":" in e:
+        e, sp = e.split(":")
+    nw = SPELLINGS[sp][0] + c + SPELLINGS[sp][1]
     if e == "top":
         return "x" + nw + "y"
     if e == "arg":
@@ -77,6 +85,7 @@ def check_nowiki(ctx, c, e):
     if html.unescape(q) != c:
         raise AssertionError("reference table not invertible for %r" % c)
     text = embed(c, e)
+    e = e.split(":")[0]
     calls = []
 
     def tf(name, args):
